@@ -41,11 +41,8 @@ def register(PROPS, CLASSIFIERS, REPLAY_RUNNERS):
     PROPS["C04"] = {"flavors": ["sync", "async"], "streams": [], "oracles": [_c04_replay],
                     "q_checks": [_lazy("c14", "c04_ordering")], "lake_targets": ["driver_life"]}
 
-    def _sync_drain_budget(prob, case, flavor):
-        """F10: events were lost in a call in which the sync drain loop spent its whole budget"""
-        return (flavor == "sync" and prob.get("kind") == "external-event-lost" and bool(prob.get("cut"))
-                and prob.get("received", 0) >= prob.get("limit", 1 << 30))
-
+    # (F10 repaired: the classifier "sync-drain-budget-counts-external-events" - an accepted external event lost in a
+    #  sync call that spent its whole drain budget - is gone: such a loss is a violation again)
     def _async_breaker_drops_external(prob, case, flavor):
         """F30: an external event vanished in a call in which the async chain breaker fired"""
         return flavor == "async" and prob.get("kind") == "external-event-lost" and bool(prob.get("cut"))
@@ -53,7 +50,6 @@ def register(PROPS, CLASSIFIERS, REPLAY_RUNNERS):
     def _async_start_interleaved(prob, case, flavor):
         """F42: the run loop processed an event while start() was still entering the initial states"""
         return flavor == "async" and prob.get("kind") == "macrosteps-interleaved" and (prob.get("call") or [None])[0] == "start"
-    CLASSIFIERS["sync-drain-budget-counts-external-events"] = _sync_drain_budget
     CLASSIFIERS["async-chain-breaker-drops-external-event"] = _async_breaker_drops_external
     CLASSIFIERS["async-start-runs-loop-during-initial-entry"] = _async_start_interleaved
 
